@@ -359,6 +359,19 @@ func (x *Exec) sliceOp(fr *Frame, st *State, ins *ssa.Slice) Value {
 	return m.freshValue(ins.Type(), "slice")
 }
 
+// sliceIdx is the position of element i of a slice with offset off in its backing array.
+// For struct elements (addressed by reference terms) a non-zero offset is kept behind the
+// function symbol sidx so that quantified facts over s[j] instantiate by syntactic matching.
+func (x *Exec) sliceIdx(off, i Term) Term {
+	if off == "0" {
+		return i
+	}
+	m := x.smt
+	f := m.fun("sidx", []string{SInt, SInt}, SInt)
+	m.axiom("ax:sidx", "(forall ((o Int) (j Int)) (! (= (sidx o j) (+ o j)) :pattern ((sidx o j))))")
+	return App(f, off, i)
+}
+
 func subT(a, b Term) Term {
 	if b == "0" {
 		return a
@@ -369,7 +382,7 @@ func subT(a, b Term) Term {
 // elemLoad reads element i (relative to the slice) of sv.
 func (x *Exec) elemLoad(st *State, sv SliceV, i Term) Value {
 	elem := sv.Typ.Underlying().(*types.Slice).Elem()
-	return x.load(st, x.elemAddr(elem, sv.Arr, addT(sv.Off, i)))
+	return x.load(st, x.elemAddr(elem, sv.Arr, x.sliceIdx(sv.Off, i)))
 }
 
 // appendOp models append(s, xs...). The result has a fresh backing array (aliasing through spare
@@ -475,14 +488,19 @@ func (x *Exec) copyStructElems(st *State, elem types.Type, sv, xv SliceV, arr Te
 	for _, fa := range fas {
 		A := x.arr(st, fa.name, fa.sort)
 		newRef := refAt(arr, "j", fa.path)
-		m.assume(fmt.Sprintf("(forall ((j Int)) (=> (and (<= 0 j) (< j %s)) (= (select %s %s) (select %s %s))))",
-			svLen, A, newRef, A, refAt(sv.Arr, addT(svOff, "j"), fa.path)))
+		m.assume(fmt.Sprintf("(forall ((j Int)) (! (=> (and (<= 0 j) (< j %s)) (= (select %s %s) (select %s %s))) :pattern ((elem %s j))))",
+			svLen, A, newRef, A, refAt(sv.Arr, x.sliceIdx(svOff, "j"), fa.path), arr))
 		if xv.Len == "1" || xv.Len == IntLit(1) {
 			m.assume(Eq(Select(A, refAt(arr, svLen, fa.path)), Select(A, refAt(xv.Arr, xv.Off, fa.path))))
 		} else {
-			newRef2 := refAt(arr, "(+ "+svLen+" j)", fa.path)
-			m.assume(fmt.Sprintf("(forall ((j Int)) (=> (and (<= 0 j) (< j %s)) (= (select %s %s) (select %s %s))))",
-				xv.Len, A, newRef2, A, refAt(xv.Arr, addT(xv.Off, "j"), fa.path)))
+			// stated over the target position k so that it instantiates by matching (elem new k)
+			xvLen := m.fresh("xlen", SInt)
+			m.assume(Eq(xvLen, xv.Len))
+			xvOff := m.fresh("xoff", SInt)
+			m.assume(Eq(xvOff, xv.Off))
+			newRef2 := refAt(arr, "k", fa.path)
+			m.assume(fmt.Sprintf("(forall ((k Int)) (! (=> (and (<= %s k) (< k (+ %s %s))) (= (select %s %s) (select %s %s))) :pattern ((elem %s k))))",
+				svLen, svLen, xvLen, A, newRef2, A, refAt(xv.Arr, x.sliceIdx(xvOff, "(- k "+svLen+")"), fa.path), arr))
 		}
 	}
 }
